@@ -36,7 +36,7 @@ type Profile struct {
 	NoRedundantPar                                                                                 bool
 	PoryKeys                                                                                       []string
 	TextPool                                                                                       []string
-	SingleTokenOperands, MultiTokenCases                                                                                bool
+	NoEmptyArgs, SingleTokenOperands, MultiTokenCases                                              bool
 	PFallback                                                                                      float64 // probability that a poryswitch has a `_` case (default 0.5)
 	WCondGoto                                                                                      int     // weight of user-written goto_if_set/goto_if_unset commands (targets: labels of the same script)
 	PRepeatAuto                                                                                    float64 // probability that an AutoVar leaf repeats the previous AutoVar command verbatim
@@ -255,6 +255,13 @@ func (g *Gen) Cmd() *Cmd {
 	}
 	if n == 0 && g.R.IntN(3) == 0 {
 		c.EmptyParens = true
+	}
+	if n > 0 && !g.P.NoEmptyArgs && g.R.IntN(16) == 0 {
+		// an empty argument: leading `(, a)`, interior `(a, , b)` or a trailing comma `(a, )`
+		at := g.R.IntN(n + 1)
+		args := append([]*Arg{}, c.Args[:at]...)
+		args = append(args, &Arg{})
+		c.Args = append(args, c.Args[at:]...)
 	}
 	return c
 }
